@@ -332,6 +332,22 @@ theorem evalFor_mono (hE : ∀ e env st, Res.le (e1 e env st) (e2 e env st))
   · apply bindSt_mono (evalDeclrs_mono hE _ _ _ _); intro _; exact hT _ _ _
   · apply bindSt_mono (evalDeclrs_mono hE _ _ _ _); intro _; exact hT _ _ _
 
+theorem evalForOf_mono (hE : ∀ e env st, Res.le (e1 e env st) (e2 e env st))
+    (hT : ∀ t env st, Res.le (t1 t env st) (t2 t env st))
+    (k : DeclKind) (x : Name) (e : Expr) (b : Stmt) (l : List Name) (env : Env) (st : St) :
+    Res.le (evalForOf e1 t1 k x e b l env st) (evalForOf e2 t2 k x e b l env st) := by
+  unfold evalForOf
+  apply bindVal_mono (hE _ _ _); intro v st1
+  split
+  · split
+    · split
+      · exact hT _ _ _
+      · exact Res.le_refl _
+    · exact Res.le_refl _
+  · exact Res.le_refl _
+  · exact Res.le_refl _
+  · exact Res.le_refl _
+
 theorem stepStmt_mono (hE : ∀ e env st, Res.le (e1 e env st) (e2 e env st))
     (hS : ∀ s l env st, Res.le (s1 s l env st) (s2 s l env st))
     (hT : ∀ t env st, Res.le (t1 t env st) (t2 t env st))
@@ -350,6 +366,7 @@ theorem stepStmt_mono (hE : ∀ e env st, Res.le (e1 e env st) (e2 e env st))
   | «while» c b => simp only [stepStmt]; exact hT _ _ _
   | doWhile b c => simp only [stepStmt]; exact hT _ _ _
   | «for» i t u b => simp only [stepStmt]; exact evalFor_mono hE hT _ _ _ _ _ _ _
+  | forOf k x e b => simp only [stepStmt]; exact evalForOf_mono hE hT _ _ _ _ _ _ _
   | brk l => exact Res.le_refl _
   | cont l => exact Res.le_refl _
   | ret e =>
@@ -413,6 +430,17 @@ theorem stepFor_mono (hE : ∀ e env st, Res.le (e1 e env st) (e2 e env st))
     · exact Res.le_refl _
     · exact forBody_mono hE hS hT _ _ _ _ _ _ _ _
 
+theorem stepForOf_mono (hS : ∀ s l env st, Res.le (s1 s l env st) (s2 s l env st))
+    (hT : ∀ t env st, Res.le (t1 t env st) (t2 t env st))
+    (k : DeclKind) (x : Name) (arr i : Nat) (b : Stmt) (l : List Name) (V : Val) (env : Env) (st : St) :
+    Res.le (stepForOf s1 t1 k x arr i b l V env st) (stepForOf s2 t2 k x arr i b l V env st) := by
+  unfold stepForOf
+  split
+  · exact Res.le_refl _
+  · split
+    · exact afterBody_mono (hS _ _ _ _) (fun _ _ => hT _ _ _)
+    · exact Res.le_refl _
+
 theorem bindParams_mono (hE : ∀ e env st, Res.le (e1 e env st) (e2 e env st)) :
     ∀ (ps : List Param) (args : List Val) (env : Env) (st : St),
       Res.le (bindParams e1 ps args env st) (bindParams e2 ps args env st)
@@ -447,6 +475,7 @@ theorem step_mono (P : Prog) (hT : ∀ t env st, Res.le (t1 t env st) (t2 t env 
   | whileLoop c b l V => exact stepWhile_mono hE hS hT _ _ _ _ _ _
   | doLoop b c l V => exact stepDo_mono hE hS hT _ _ _ _ _ _
   | forLoop per test upd b l V => exact stepFor_mono hE hS hT _ _ _ _ _ _ _ _
+  | forOfLoop k x arr i b l V => exact stepForOf_mono hS hT _ _ _ _ _ _ _ _ _
 
 theorem eval_succ_le (P : Prog) : ∀ (n : Nat) (t : Task) (env : Env) (st : St),
     Res.le (eval P n t env st) (eval P (n + 1) t env st)
